@@ -340,6 +340,22 @@ Definition producer_block (cfg : scfg) (ers fallback : bool) (buf : list zseq) (
          end
   end.
 
+(* round 2: the same block handed to the copier with the position [pos] of the block in the frame (what validation needs:
+   an offset may reach into the earlier blocks of the frame).  [producer_block] is the instance pos = 0, i.e. the code as
+   it is: ZSTD_buildSeqStore starts every block from ZSTD_sequencePosition {0,0,0}. *)
+Definition producer_block_at (cfg : scfg) (ers fallback : bool) (buf : list zseq) (nb capacity srcSize : N) (rep : reps)
+  (pos : N) : prodres :=
+  match post_process buf nb capacity srcSize with
+  | PPfail => if fallback then PRfallback else PRfail_producer
+  | PPok seqs =>
+    if srcSize <? length_sum seqs then PRfail_invalid 20
+    else match copy_explicit cfg ers srcSize seqs rep pos with
+         | Done (_, br) => PRstore br
+         | Invalid s => PRfail_invalid s
+         | Oob s => PRoob s
+         end
+  end.
+
 (* ---------- LZ semantics of a parse ---------- *)
 (* history as a function from absolute index to byte; the dictionary occupies [0, D), the source [D, D+n) *)
 Definition hist_of (dict x : list N) : N -> N := fun i => nth (N.to_nat i) (dict ++ x) 0.
